@@ -1229,3 +1229,104 @@ Proof.
   eexists. eexists. split; [vm_compute; reflexivity|].
   repeat split; vm_compute; reflexivity.
 Qed.
+
+(* ---------------------------------------------------------------------------------------------- *)
+(* C08 share: per-flow order, and "drained"                                                        *)
+
+Definition of_flow (f : Z) (l : list pkt) : list pkt := filter (fun p => Z.eqb (flow p) f) l.
+
+Theorem tb_flow_fifo c t0 acts s tr :
+  0 < rate c -> tb_run c (tb0 true c t0) acts = Some (s, tr) ->
+  forall f, exists rest, of_flow f (map snd (puts tr)) = of_flow f (map snd (fwds tr)) ++ rest.
+Proof.
+  intros Hr Hrun f. rewrite (tb_conserves _ _ _ _ _ Hr Hrun). unfold of_flow. rewrite filter_app. eauto.
+Qed.
+
+Lemma spacing_nonneg k size : 0 < k -> 0 <= size -> 0 <= spacing k size.
+Proof.
+  intros Hk Hs. unfold spacing. apply Qle_shift_div_l; [exact Hk|]. rewrite Qmult_0_l.
+  apply Qmult_le_0_compat; lra.
+Qed.
+
+(* when no internal step of the bucket is enabled (and no timeout is pending), nothing of it is due now *)
+Lemma tb_no_internal_step_quiet c t0 s tr R :
+  Inv c t0 s tr R ->
+  (forall k, peak_on c = Some k -> 0 < k) -> Forall (fun x => 0 <= sz (snd x)) (puts tr) ->
+  phase s = PIdle ->
+  (forall a, (forall p, a <> TPut p) -> (forall t, a <> TAdvance t) -> tb_act c s a = None) ->
+  tb_urgent s = false.
+Proof.
+  intros HI Hk Hsz Hph Hno. pose proof (inv_phase _ _ _ _ _ HI) as P. unfold phase_inv, idle_inv in P.
+  rewrite Hph in P. destruct P as (_ & _ & _ & _ & P).
+  assert (Hs : tstarted s = true).
+  { destruct (tstarted s) eqn:Es; [reflexivity|]. exfalso. destruct P as (Pg & _ & _).
+    assert (H : tb_act c s TInit = None) by (apply Hno; intros; discriminate).
+    cbn [tb_act] in H. rewrite Es in H.
+    destruct (sq_get_enabled _ fifo_pop _ Pg) as [q Hq]. rewrite Hq in H. discriminate. }
+  rewrite Hs in P. destruct P as (_ & _ & Pg & _).
+  assert (Hp : pend (tq s) = 0%nat).
+  { destruct (pend (tq s)) as [|n] eqn:Ep; [reflexivity|]. exfalso.
+    assert (H : tb_act c s TStoreCb = None) by (apply Hno; intros; discriminate).
+    cbn [tb_act] in H. destruct (proj1 (sq_cb_enabled _ fifo_pop (tq s))) as [q Hq]; [lia|].
+    rewrite Hq in H. discriminate. }
+  assert (Hg : forall x, get (tq s) <> GGranted x).
+  { intros [a0 p] Gx.
+    assert (H : tb_act c s TGet = None) by (apply Hno; intros; discriminate).
+    unfold tb_act in H. rewrite Hph in H. destruct (sq_take_enabled _ _ _ Gx) as [q Hq]. rewrite Hq in H.
+    rewrite Hs in H. cbn [negb] in H.
+    pose proof (sq_take_inv _ _ _ _ Hq) as (_ & _ & _ & Gn).
+    destruct (sq_get_enabled _ fifo_pop _ Gn) as [q' Hq'].
+    assert (Hp0 : 0 <= sz p).
+    { assert (Hin : In (a0, p) (puts tr)).
+      { rewrite (inv_fifo _ _ _ _ _ HI). apply in_or_app. right. rewrite (sq_held_granted _ _ _ Gx). left. reflexivity. }
+      apply (proj1 (Forall_forall _ _) Hsz _ Hin). }
+    destruct (Qlt_le_dec _ _); [discriminate|].
+    unfold tb_after_debit, tb_forward in H. cbn [tq] in H.
+    destruct (peak_on c) as [k|] eqn:Ek.
+    - destruct (Qlt_le_dec (spacing k (sz p)) 0) as [Hn|Hn]; [|discriminate].
+      pose proof (spacing_nonneg k (sz p) (Hk _ eq_refl) Hp0). lra.
+    - rewrite Hq' in H. discriminate. }
+  unfold tb_urgent, tb_due. rewrite Hs, Hph. cbn [negb orb]. rewrite orb_false_r.
+  apply sq_urgent_false. split; assumption.
+Qed.
+
+(* the bucket's share of "the simulation ran out of events": nothing enabled but puts and the passing of
+   time, no timeout pending  =>  nothing is held, everything put in has been forwarded *)
+Theorem tb_drained c t0 acts s tr :
+  0 < rate c -> tb_run c (tb0 true c t0) acts = Some (s, tr) ->
+  (forall k, peak_on c = Some k -> 0 < k) -> Forall (fun x => 0 <= sz (snd x)) (puts tr) ->
+  phase s = PIdle ->
+  (forall a, (forall p, a <> TPut p) -> (forall t, a <> TAdvance t) -> tb_act c s a = None) ->
+  tb_held s = [] /\ map snd (fwds tr) = map snd (puts tr).
+Proof.
+  intros Hr Hrun Hk Hsz Hph Hno. destruct (reachable_inv c t0 Hr _ _ _ Hrun) as [R HI].
+  assert (HQ : tb_quiescent s) by (split; [eapply tb_no_internal_step_quiet; eauto|exact Hph]).
+  split; [eapply quiescent_held_empty; eauto|eapply tb_lossless; eauto].
+Qed.
+
+(* while a packet is in service its timeout is pending and, when due, the server's step is enabled *)
+Theorem tb_timer_enabled c t0 acts s tr :
+  0 < rate c -> tb_run c (tb0 true c t0) acts = Some (s, tr) ->
+  (forall k, peak_on c = Some k -> 0 < k) -> Forall (fun x => 0 <= sz (snd x)) (puts tr) ->
+  forall p dl, phase s = PTok p dl \/ phase s = PPeak p dl ->
+    tnow s <= dl /\ (dl == tnow s -> exists s' o, tb_act c s TTimer = Some (s', o)).
+Proof.
+  intros Hr Hrun Hk Hsz p dl Hph. destruct (reachable_inv c t0 Hr _ _ _ Hrun) as [R HI].
+  pose proof (inv_phase _ _ _ _ _ HI) as P. unfold phase_inv in P.
+  destruct Hph as [Hph|Hph]; rewrite Hph in P.
+  - destruct P as (Ps & Pg & Pn & R' & o & -> & Po & _). split; [exact Pn|]. intros Ed.
+    unfold tb_act. rewrite Hph. apply Qeq_bool_iff in Ed. rewrite Ed.
+    destruct (sq_get_enabled _ fifo_pop _ Pg) as [q' Hq'].
+    assert (Hp0 : 0 <= sz p).
+    { assert (Hin : In (v_arr o, p) (puts tr)).
+      { rewrite (inv_fifo _ _ _ _ _ HI). apply in_or_app. left. unfold sv_arr. rewrite map_app. apply in_or_app. right.
+        left. rewrite Po. reflexivity. }
+      apply (proj1 (Forall_forall _ _) Hsz _ Hin). }
+    unfold tb_after_debit, tb_forward. cbn [tq tnow]. destruct (peak_on c) as [k|] eqn:Ek.
+    + destruct (Qlt_le_dec (spacing k (sz p)) 0) as [Hn|Hn]; [|eauto].
+      pose proof (spacing_nonneg k (sz p) (Hk _ eq_refl) Hp0). lra.
+    + rewrite Hq'. eauto.
+  - destruct P as (Ps & Pg & Pn & _). split; [exact Pn|]. intros Ed.
+    unfold tb_act. rewrite Hph. apply Qeq_bool_iff in Ed. rewrite Ed.
+    destruct (sq_get_enabled _ fifo_pop _ Pg) as [q' Hq']. unfold tb_forward. cbn [tq]. rewrite Hq'. eauto.
+Qed.
